@@ -492,6 +492,8 @@ class Ctx:
         # evidence/ is only ever written by a run against /repo itself; a run against a scratch tree
         # (VERIF_REPO=..., seeded changes) writes under its own per-repository build directory
         evdir = os.path.join(VERIF, "evidence") if os.path.abspath(REPO) == "/repo" else os.path.join(dyn_dir(), "evidence")
+        if getattr(self, "is_replay", False):
+            evdir = os.path.join(dyn_dir(), "evidence-replay")
         os.makedirs(evdir, exist_ok=True)
         with open(os.path.join(evdir, self.pid + ".json"), "w") as f:
             json.dump(ev, f, indent=1, default=str)
